@@ -44,10 +44,16 @@ import (
 
 	"github.com/gnolang/gno/tm2/pkg/amino"
 	abci "github.com/gnolang/gno/tm2/pkg/bft/abci/types"
+	"github.com/gnolang/gno/tm2/pkg/bft/appconn"
+	"github.com/gnolang/gno/tm2/pkg/bft/mempool/mock"
+	"github.com/gnolang/gno/tm2/pkg/bft/proxy"
 	sm "github.com/gnolang/gno/tm2/pkg/bft/state"
 	"github.com/gnolang/gno/tm2/pkg/bft/types"
 	"github.com/gnolang/gno/tm2/pkg/crypto"
 	"github.com/gnolang/gno/tm2/pkg/crypto/ed25519"
+	dbm "github.com/gnolang/gno/tm2/pkg/db"
+	"github.com/gnolang/gno/tm2/pkg/db/memdb"
+	"github.com/gnolang/gno/tm2/pkg/log"
 	"gnoverif/kit"
 )
 
@@ -328,6 +334,22 @@ func blockTokens(st sm.State, b *types.Block) []string {
 	return out
 }
 
+// valsDigest: count / Σ power / Σ (i+1)·addr mod 1000000007 (output lines are cut at 300 chars).
+func valsDigest(set *types.ValidatorSet) string {
+	m := big.NewInt(1000000007)
+	sum, acc := new(big.Int), new(big.Int)
+	n := 0
+	if set != nil {
+		for i, v := range set.Validators {
+			n++
+			sum.Add(sum, big.NewInt(v.VotingPower))
+			a := new(big.Int).Mod(new(big.Int).SetBytes(v.Address[:]), m)
+			acc.Mod(acc.Add(acc, a.Mul(a, big.NewInt(int64(i+1)))), m)
+		}
+	}
+	return fmt.Sprintf("%d/%s/%s", n, sum.String(), acc.String())
+}
+
 func bidTok(b types.BlockID) string {
 	return hx(b.Hash) + ":" + strconv.Itoa(b.PartsHeader.Total) + ":" + hx(b.PartsHeader.Hash)
 }
@@ -359,7 +381,9 @@ func decodeBlock(bz []byte) (b *types.Block, err error) {
 
 // line renders the op line for (spec, block bytes); ok=false if the state cannot
 // be built or the bytes do not decode.
-func line(sp *stateSpec, bz []byte) (string, bool) {
+func line(sp *stateSpec, bz []byte) (string, bool) { return lineOp("vb", sp, bz) }
+
+func lineOp(op string, sp *stateSpec, bz []byte) (string, bool) {
 	st, ok := buildState(sp)
 	if !ok {
 		return "", false
@@ -368,7 +392,7 @@ func line(sp *stateSpec, bz []byte) (string, bool) {
 	if err != nil {
 		return "", false
 	}
-	toks := append([]string{"vb"}, stateTokens(st)...)
+	toks := append([]string{op}, stateTokens(st)...)
 	toks = append(toks, blockTokens(st, b)...)
 	toks = append(toks, "|", bidTok(sp.lastBlockID), specValsTok(sp.nextVals), strconv.Itoa(sp.cp), hx(bz))
 	return strings.Join(toks, " "), true
@@ -735,7 +759,7 @@ func exec(t []string) (impl string, oracle string) {
 		}
 		return "err:decodable", "-"
 	}
-	if len(t) < 1 || t[0] != "vb" {
+	if len(t) < 1 || (t[0] != "vb" && t[0] != "ap") {
 		panic(badop{})
 	}
 	sp, bz, abs := parseLine(t)
@@ -758,6 +782,10 @@ func exec(t []string) (impl string, oracle string) {
 		if want[i] != abs[i] {
 			return "err:absmismatch", fmt.Sprintf("- token %d: line has %s, real objects give %s", i+1, abs[i], want[i])
 		}
+	}
+
+	if t[0] == "ap" {
+		return execApply(sp, st, fresh)
 	}
 
 	// ---- the real code, each call on a freshly decoded block
@@ -788,6 +816,79 @@ func exec(t []string) (impl string, oracle string) {
 	}
 	if basic == "ok" && len(bad) == 0 {
 		return impl, "-" // rejected for a reason outside the statement's list (version, hash shape, …)
+	}
+	return impl, "ok"
+}
+
+// ---------------------------------------------------------------- ap: the real BlockExecutor.ApplyBlock
+
+type applyApp struct{ abci.BaseApplication }
+
+var applyConns appconn.AppConns
+
+// prepareDB stores what ApplyBlock reads back from the state DB: the validator set of
+// the previous height (for BeginBlock's LastCommitInfo).
+func prepareDB(st sm.State) dbm.DB {
+	db := memdb.NewMemDB()
+	if st.LastBlockHeight >= 1 && st.LastBlockHeight+1 > st.InitialHeight {
+		pseudo := st.Copy()
+		pseudo.InitialHeight = 1
+		pseudo.LastBlockHeight = st.LastBlockHeight - 2
+		pseudo.NextValidators = st.LastValidators.Copy()
+		pseudo.Validators = st.LastValidators.Copy()
+		pseudo.LastHeightValidatorsChanged = st.LastBlockHeight
+		pseudo.LastHeightConsensusParamsChanged = st.LastBlockHeight - 1
+		if pseudo.LastBlockHeight+1 == pseudo.InitialHeight {
+			pseudo.LastHeightValidatorsChanged = pseudo.LastBlockHeight + 2
+		}
+		func() {
+			defer func() { recover() }()
+			sm.SaveState(db, pseudo)
+		}()
+	}
+	return db
+}
+
+// execApply runs the real ApplyBlock: a refused block must be refused with
+// ValidateBlock's error, an applied one must have been valid (oracle), and the new
+// State's block-derived fields are printed for the model's `advance`.
+func execApply(sp *stateSpec, st sm.State, fresh func() *types.Block) (impl string, oracle string) {
+	if applyConns == nil {
+		applyConns = appconn.NewAppConns(proxy.NewLocalClientCreator(&applyApp{}))
+		if err := applyConns.Start(); err != nil {
+			panic(err)
+		}
+	}
+	st.LastHeightValidatorsChanged = st.InitialHeight
+	st.LastHeightConsensusParamsChanged = st.InitialHeight
+	be := sm.NewBlockExecutor(prepareDB(st), log.NewNoopLogger(), applyConns.Consensus(), mock.Mempool{})
+	b := fresh()
+	bid := types.BlockID{Hash: h32("c32-apply"), PartsHeader: types.PartSetHeader{Total: 1, Hash: h32("c32-apply-parts")}}
+	var ns sm.State
+	cls, panicked := guarded(func() error {
+		var err error
+		ns, err = be.ApplyBlock(st, bid, b)
+		return err
+	})
+	bad := violated(st, fresh())
+	if panicked {
+		return cls, "VIOL:panic ApplyBlock panicked on a decodable block: " + cls
+	}
+	if cls != "ok" {
+		if len(bad) > 0 {
+			return cls, "ok"
+		}
+		return cls, "-"
+	}
+	impl = fmt.Sprintf("ok h=%d tot=%d time=%s lastvals=%s lbid=%s", ns.LastBlockHeight, ns.LastBlockTotalTx,
+		timeNS(ns.LastBlockTime).String(), valsDigest(ns.LastValidators), bit(ns.LastBlockID.Equals(bid)))
+	if len(bad) > 0 {
+		return impl, "VIOL:applied-invalid ApplyBlock applied a block although: " + strings.Join(bad, ",")
+	}
+	// the statement's link conditions on the new state
+	if ns.LastBlockHeight != b.Height || !ns.LastBlockTime.Equal(b.Time) || !ns.LastBlockID.Equals(bid) ||
+		valsTok(ns.LastValidators) != valsTok(st.Validators) {
+		return impl, "VIOL:bad-advance the State after ApplyBlock does not describe the applied block"
 	}
 	return impl, "ok"
 }
